@@ -3,35 +3,57 @@
 (* C17 - modules and packages resolve according to the project layout.     *)
 (*                                                                         *)
 (* A configuration is a project tree:                                      *)
-(*   - 1..4 packages.  Package 1 is the root project "app"; every other    *)
-(*     package is a registry dependency living at                          *)
-(*     <root>/build/packages/<name>  or a path dependency living next to   *)
-(*     the root (<base>/<name>, referenced as  path = "../<name>").        *)
-(*     <base> is where the local packages live: the case directory itself, *)
-(*     a monorepo directory "packages", or "build/libs" (directories whose *)
-(*     names look like, but are not, build/packages).                      *)
+(*   - 1..4 packages.  Package 1 is the root project "app".  Every other   *)
+(*     package has two INDEPENDENT attributes:                             *)
+(*       entry: how the packages that depend on it name it in their        *)
+(*              gleam.toml: "version" (x = "~> 1.0"), "path"               *)
+(*              (x = { path = "<relative path to its directory>" }) or     *)
+(*              "none" (nobody depends on it: see twin below);             *)
+(*       place: where its directory is: "packages"                         *)
+(*              (<root>/build/packages/<name>), "sibling" (<base>/<name>,  *)
+(*              next to the root) or "nested" (<root>/packages/<name>, a   *)
+(*              monorepo member inside the root project).                  *)
+(*     All combinations that denote a project are generated (ValidShape):  *)
+(*     a version entry means <root>/build/packages/<name> by definition,   *)
+(*     a path entry may point anywhere, in particular INTO build/packages  *)
+(*     (a pinned download), and a "twin" is a sibling or nested directory  *)
+(*     that carries the NAME of a build/packages package (a checkout of    *)
+(*     the same library lying around in the workspace): nobody depends on  *)
+(*     it, it is a project of its own, and no import may ever land in it.  *)
+(*     <base> (where root and siblings live) is the case directory itself, *)
+(*     a monorepo directory "packages", or "build/libs" (names that look   *)
+(*     like, but are not, build/packages).                                 *)
 (*   - dependency edges (a DAG, edges go from lower to higher index; every *)
-(*     non-root package is a dependency of somebody; a registry package    *)
-(*     depends on registry packages only).  Chains a -> b -> c without     *)
-(*     a -> c exercise "directly depends on ... and nothing else".         *)
-(*   - modules at <pkg>/(src|test)/<dir>*/<name>.gleam; the same module    *)
-(*     name may occur in several packages, also in an importer and one of  *)
-(*     its dependencies (then the importer's own module wins); two direct  *)
-(*     dependencies of one package never offer the same name (Gleam        *)
+(*     non-root package except a twin is a dependency of somebody; a       *)
+(*     package living in build/packages lists only packages that live      *)
+(*     there).  Chains a -> b -> c without a -> c exercise "directly       *)
+(*     depends on ... and nothing else".                                   *)
+(*   - modules at <pkg>/(src|test)/<dir>*/<stem>.gleam.  Directory names   *)
+(*     are drawn from {dir, sub, src, test, build, packages}: the special  *)
+(*     segments are ordinary directory names below src/ or test/           *)
+(*     (src/test/helpers.gleam is the module test/helpers).  The same      *)
+(*     module name may occur in several packages, also in an importer and  *)
+(*     one of its dependencies (then the importer's own module wins); two  *)
+(*     direct dependencies of one package never offer the same name (Gleam *)
 (*     rejects such projects) so that resolution is a function.            *)
 (*   - a free-standing file outside every package.                         *)
 (*   - an open order: the sequence in which the editor opens the files.    *)
 (*                                                                         *)
 (* Imports are derived, not chosen: every module imports every module name *)
-(* in use anywhere in the configuration, unless the reference resolution   *)
-(* of that import would create an import cycle (Gleam forbids cycles; the  *)
-(* target must come later in the canonical file order).  Resolution of one *)
-(* import is independent of the others, so this is the strongest set.      *)
+(* in use anywhere in the configuration AND every proper suffix of such a  *)
+(* name (`import helpers` next to the module test/helpers: must not        *)
+(* resolve unless some visible package really has a module helpers),       *)
+(* unless the reference resolution of that import would create an import   *)
+(* cycle (Gleam forbids cycles; the target must come later in the          *)
+(* canonical file order).  Resolution of one import is independent of the  *)
+(* others, so this is the strongest set.                                   *)
 (*                                                                         *)
 (* The reference operators ModuleName, RootOf, Visible, Resolve, External  *)
 (* are the specification of C17; Finish prints the configuration together  *)
 (* with their values (one CASE line), the harness materialises the tree,   *)
-(* drives the real server and compares.                                    *)
+(* drives the real server and compares.  External is the rule of the       *)
+(* property ("packages under build/packages"): a function of the package   *)
+(* DIRECTORY, not of the way the package is referred to.                   *)
 (*                                                                         *)
 (* Sim = FALSE: BFS enumerates every configuration within the bounds once  *)
 (* (the builder is canonical: one behaviour per configuration); the open   *)
@@ -43,49 +65,65 @@
 EXTENDS Naturals, Sequences, FiniteSets, TLC, Json
 
 CONSTANTS MaxPkgs,    \* 1..4
-          NNames,     \* how many entries of NameTable are in use
+          NameIdx,    \* which entries of NameTable are in use
+          Palette,    \* simulation: how many of them one configuration draws its module names from
           MaxMods,    \* modules per package
           TestDirs,   \* BOOLEAN: modules may live under test/ as well as src/
           NBases,     \* how many entries of BaseTable are in use
           NSchemes,   \* how many entries of NameSchemes are in use
+          Entries,    \* subset of {"version", "path", "none"}
+          Places,     \* subset of {"packages", "sibling", "nested"}
           Sim         \* see above
 
-NameTable == << <<"top">>, <<"dir", "mid">>, <<"dir", "sub", "leaf">>, <<"mid">>, <<"util">>, <<"sub", "leaf">> >>
+\* module names: <directory segment>* <stem>; segments from {dir, sub, src, test, build, packages}
+NameTable == << <<"top">>, <<"dir", "mid">>, <<"test", "helpers">>, <<"dir", "sub", "leaf">>, <<"mid">>,
+                <<"src", "gen">>, <<"helpers">>, <<"build", "packages", "zed">>, <<"sub", "leaf">>, <<"util">>,
+                <<"test", "src", "mid">>, <<"packages", "top">> >>
+SourceDirs == {"src", "test"}
 BaseTable == << <<>>, <<"packages">>, <<"build", "libs">> >>
 \* package names: dependency tables are processed in alphabetical order, so both "a package is listed
 \* before its own dependencies" and the opposite must occur
 NameSchemes == << <<"app", "lib_b", "lib_c", "lib_d">>, <<"app", "lib_z", "lib_y", "lib_x">> >>
-DepKinds  == {"registry", "path"}
 
-ASSUME /\ MaxPkgs \in 1..4 /\ NNames \in 1..Len(NameTable) /\ MaxMods \in 1..3
+ASSUME /\ MaxPkgs \in 1..4 /\ NameIdx \subseteq 1..Len(NameTable) /\ NameIdx # {} /\ MaxMods \in 1..3
+       /\ Palette \in 1..Cardinality(NameIdx)
        /\ NBases \in 1..Len(BaseTable) /\ NSchemes \in 1..Len(NameSchemes)
+       /\ Entries \subseteq {"version", "path", "none"} /\ Places \subseteq {"packages", "sibling", "nested"}
 
 VARIABLES phase,   \* "start" | "pkgs" | "deps" | "mods" | "open" | "done"
           npk,     \* number of packages of the configuration being built
-          base,    \* directory of the local packages (sequence of path components)
+          base,    \* directory of the root and its siblings (sequence of path components)
           scheme,  \* which naming scheme the packages use
-          kinds,   \* sequence: kind of package i ("root" | "registry" | "path")
+          pal,     \* the name indices this configuration draws from (BFS: NameIdx)
+          kinds,   \* sequence: [entry, place, of] of package i; of # 0: twin carrying the name of package `of`
           deps,    \* set of <<i, j>>: package i lists package j in its gleam.toml
           cur,     \* cursor of the builder (package index)
           mods,    \* set of modules [pkg, c]; c indexes Choice (directory x name)
           opened   \* sequence of files in the order the editor opened them
-vars == <<phase, npk, base, scheme, kinds, deps, cur, mods, opened>>
+vars == <<phase, npk, base, scheme, pal, kinds, deps, cur, mods, opened>>
 
 -----------------------------------------------------------------------------
 (* the tree                                                                *)
 
 Choice(c)  == [dir  |-> IF c % 2 = 1 THEN "src" ELSE "test", name |-> NameTable[(c + 1) \div 2]]
-Choices    == {c \in 1..(2 * NNames) : TestDirs \/ c % 2 = 1}
+Choices    == {c \in 1..(2 * Len(NameTable)) : (c + 1) \div 2 \in pal /\ (TestDirs \/ c % 2 = 1)}
 NameOf(m)  == Choice(m.c).name
 
 FreeFile   == [pkg |-> 0, c |-> 1]     \* the free-standing file (not a module of any package)
 Unresolved == [pkg |-> 0, c |-> 0]     \* "no file"
 
+RootKind   == [entry |-> "root", place |-> "top", of |-> 0]
 Pkgs       == 1..Len(kinds)
 PkgNames   == NameSchemes[scheme]
+IsTwin(p)  == kinds[p].of # 0
+\* the name in gleam.toml and of the directory (a twin carries the name of its original) / a unique label
+PkgName(p) == IF IsTwin(p) THEN PkgNames[kinds[p].of] ELSE PkgNames[p]
+PkgId(p)   == IF IsTwin(p) THEN PkgNames[kinds[p].of] \o "_twin" ELSE PkgNames[p]
 RootLoc    == base \o <<"app">>
-Loc(p)     == IF kinds[p] = "registry" THEN RootLoc \o <<"build", "packages", PkgNames[p]>>
-              ELSE base \o <<PkgNames[p]>>
+Loc(p)     == CASE kinds[p].place = "top"      -> RootLoc
+                [] kinds[p].place = "packages" -> RootLoc \o <<"build", "packages", PkgName(p)>>
+                [] kinds[p].place = "sibling"  -> base \o <<PkgName(p)>>
+                [] kinds[p].place = "nested"   -> RootLoc \o <<"packages", PkgName(p)>>
 
 \* path of a file, as a sequence of components; the last one is the file stem (".gleam" is implied)
 Path(f)    == IF f.pkg = 0 THEN <<"free", "lone">>
@@ -94,6 +132,7 @@ Path(f)    == IF f.pkg = 0 THEN <<"free", "lone">>
 Files      == mods \cup {FreeFile}
 
 IsPrefix(s, t) == Len(s) <= Len(t) /\ SubSeq(t, 1, Len(s)) = s
+Suffixes(s)    == {SubSeq(s, i, Len(s)) : i \in 1..Len(s)}
 
 -----------------------------------------------------------------------------
 (* the reference operators of C17                                          *)
@@ -105,16 +144,20 @@ RootsOf(path) == {p \in Pkgs : IsPrefix(Loc(p), path)}
 RootOf(path) == LET R == RootsOf(path)
                 IN IF R = {} THEN 0 ELSE CHOOSE p \in R : \A q \in R : Len(Loc(q)) <= Len(Loc(p))
 
-\* <pkg>/src/a/b.gleam and <pkg>/test/a/b.gleam are the module a/b: the path below the first
-\* component after the package root
-ModuleName(path) == LET r == RootOf(path)
-                    IN IF r = 0 THEN <<>> ELSE SubSeq(path, Len(Loc(r)) + 2, Len(path))
+\* <pkg>/src/a/b.gleam and <pkg>/test/a/b.gleam are the module a/b: the path relative to the package's src/ or
+\* test/ directory.  Only the ONE component naming that directory is dropped: below it src, test, build and
+\* packages are directory names like any other (src/test/helpers.gleam is test/helpers, not helpers).
+ModuleName(path) == LET r   == RootOf(path)
+                        rel == SubSeq(path, Len(Loc(r)) + 1, Len(path))
+                    IN IF r = 0 \/ Len(rel) < 2 \/ rel[1] \notin SourceDirs THEN <<>> ELSE Tail(rel)
 
 \* own package + direct dependencies, nothing else
 Visible(p) == IF p = 0 THEN {} ELSE {p} \cup {q \in Pkgs : <<p, q>> \in deps}
 
-\* packages under build/packages are external: navigable, not editable
-External(p) == kinds[p] = "registry"
+\* packages under build/packages are external (navigable, not editable): the package DIRECTORY is
+\* .../build/packages/<name>, however the package was referred to
+UnderBuildPackages(loc) == Len(loc) >= 3 /\ loc[Len(loc) - 1] = "packages" /\ loc[Len(loc) - 2] = "build"
+External(p) == UnderBuildPackages(Loc(p))
 
 \* (LET: TLC evaluates a LET definition at most once per use of the enclosing operator)
 Candidates(f, name) == LET vis == Visible(RootOf(Path(f)))
@@ -129,13 +172,17 @@ Preferred(f, name)  == LET C   == Candidates(f, name)
 Resolve(f, name) == LET P == Preferred(f, name) IN IF P = {} THEN Unresolved ELSE CHOOSE m \in P : TRUE
 
 -----------------------------------------------------------------------------
-(* derived imports: one use site per (module, name in use) that cannot create an import cycle *)
+(* derived imports: one use site per (module, import name) that cannot create an import cycle *)
 
 NamesInUse  == {NameOf(m) : m \in mods}
+\* what gets imported: every module name in use and every proper suffix of one (`helpers`, `packages/zed`, `zed`)
+ImportNames == UNION {Suffixes(n) : n \in NamesInUse}
 Later(m, t) == t.pkg > m.pkg \/ (t.pkg = m.pkg /\ t.c > m.c)
-UseSites    == {u \in [from : Files, name : NamesInUse] :
+UseSites    == {u \in [from : Files, name : ImportNames] :
                    \/ u.from = FreeFile
                    \/ LET t == Resolve(u.from, u.name) IN t = Unresolved \/ Later(u.from, t)}
+\* modules an import of `name` must NOT land in although their path ends in it (t: where it must land)
+Decoys(from, name, t) == {x \in mods : name \in Suffixes(NameOf(x)) /\ x # t /\ x # from}
 
 -----------------------------------------------------------------------------
 (* builder                                                                 *)
@@ -145,38 +192,53 @@ Pick(S) == IF Sim THEN (IF S = {} THEN {} ELSE {RandomElement(S)}) ELSE S
 Bases   == {BaseTable[i] : i \in 1..NBases}
 \* simulation: larger projects are drawn more often
 SizeLots == {<<n, k>> \in (1..MaxPkgs) \X (1..6) : k <= (IF n = 1 THEN 1 ELSE 2 * n - 2)}
+Palettes == {S \in SUBSET NameIdx : Cardinality(S) = Palette}
 
 Init == /\ kinds = <<>> /\ deps = {} /\ mods = {} /\ opened = <<>> /\ cur = 1
-        /\ IF Sim THEN phase = "start" /\ npk = 0 /\ base = <<>> /\ scheme = 1
-                  ELSE phase = "pkgs" /\ npk \in 1..MaxPkgs /\ base \in Bases
+        /\ IF Sim THEN phase = "start" /\ npk = 0 /\ base = <<>> /\ scheme = 1 /\ pal = {}
+                  ELSE phase = "pkgs" /\ npk \in 1..MaxPkgs /\ base \in Bases /\ pal = NameIdx
                        /\ scheme \in (IF npk = 1 THEN {1} ELSE 1..NSchemes)   \* one package: its name is "app" anyway
 
-\* simulation only: draw the size and the location of the local packages
+\* simulation only: draw the size, the location of the local packages and the names
 Start == /\ phase = "start"
          /\ npk' = RandomElement(SizeLots)[1]
          /\ base' = RandomElement(Bases)
          /\ scheme' = RandomElement(1..NSchemes)
+         /\ pal' = RandomElement(Palettes)
          /\ phase' = "pkgs"
          /\ UNCHANGED <<kinds, deps, cur, mods, opened>>
 
+\* entry and place are independent; what is excluded does not denote a project:
+\*   a version entry MEANS <root>/build/packages/<name> (a same-named directory elsewhere is a twin);
+\*   a package nobody lists and that lives in build/packages is not part of any project.
+ValidShape(e, pl) == /\ e = "version" => pl = "packages"
+                     /\ e = "none"    => pl # "packages"
+\* packages a twin can be made of: they live in build/packages and have no twin yet
+Twinnable == {q \in Pkgs : kinds[q].place = "packages" /\ \A r \in Pkgs : kinds[r].of # q}
+DepKinds  == {k \in [entry : Entries, place : Places, of : {0} \cup Twinnable] :
+                 /\ ValidShape(k.entry, k.place)
+                 /\ (k.of # 0) <=> (k.entry = "none")}
+
 AddPackage ==
     /\ phase = "pkgs"
-    /\ \E k \in Pick(IF kinds = <<>> THEN {"root"} ELSE DepKinds) :
+    /\ \E k \in Pick(IF kinds = <<>> THEN {RootKind} ELSE DepKinds) :
           kinds' = Append(kinds, k)
     /\ phase' = IF Len(kinds) + 1 < npk THEN "pkgs" ELSE IF npk = 1 THEN "mods" ELSE "deps"
     /\ cur' = IF Len(kinds) + 1 < npk THEN cur ELSE IF npk = 1 THEN 1 ELSE 2
-    /\ UNCHANGED <<npk, base, scheme, deps, mods, opened>>
+    /\ UNCHANGED <<npk, base, scheme, pal, deps, mods, opened>>
 
-\* who may list package j: a package of lower index; a registry package lists registry packages only
-Sources(j) == {i \in 1..(j - 1) : kinds[i] = "registry" => kinds[j] = "registry"}
+\* who may list package j: a package of lower index that is not a twin; a package living in build/packages lists
+\* only packages living there; nobody lists a twin
+Sources(j) == {i \in 1..(j - 1) : ~IsTwin(i) /\ (kinds[i].place = "packages" => kinds[j].place = "packages")}
+ImporterSets(j) == IF IsTwin(j) THEN {{}} ELSE SUBSET Sources(j) \ {{}}
 
 AddDep ==
     /\ phase = "deps"
-    /\ \E S \in Pick(SUBSET Sources(cur) \ {{}}) :
+    /\ \E S \in Pick(ImporterSets(cur)) :
           deps' = deps \cup {<<i, cur>> : i \in S}
     /\ phase' = IF cur < npk THEN "deps" ELSE "mods"
     /\ cur' = IF cur < npk THEN cur + 1 ELSE 1
-    /\ UNCHANGED <<npk, base, scheme, kinds, mods, opened>>
+    /\ UNCHANGED <<npk, base, scheme, pal, kinds, mods, opened>>
 
 \* module sets package p may get, given the packages filled before it: names distinct inside the package
 \* (src/a.gleam and test/a.gleam would both be module a) and distinct from those of every package that
@@ -188,14 +250,18 @@ ModSets(p)   == {S \in SUBSET Choices :
                     /\ \A c1, c2 \in S : Choice(c1).name = Choice(c2).name => c1 = c2
                     /\ \A c \in S : Choice(c).name \notin TakenBy(Siblings(p))}
 ModSetsOrNone(p) == IF ModSets(p) = {} THEN {{}} ELSE ModSets(p)
+\* simulation: every other twin is an exact copy of its original (BFS reaches the copies anyway)
+CopyOf(p)    == {m.c : m \in {x \in mods : x.pkg = kinds[p].of}}
+ModSetsFor(p) == IF Sim /\ IsTwin(p) /\ CopyOf(p) \subseteq Choices /\ RandomElement({TRUE, FALSE})
+                 THEN {CopyOf(p)} ELSE ModSetsOrNone(p)
 
 AddModules ==
     /\ phase = "mods"
-    /\ \E S \in Pick(ModSetsOrNone(cur)) :
+    /\ \E S \in Pick(ModSetsFor(cur)) :
           mods' = mods \cup {[pkg |-> cur, c |-> c] : c \in S}
     /\ phase' = IF cur < npk THEN "mods" ELSE "open"
     /\ cur' = IF cur < npk THEN cur + 1 ELSE 1
-    /\ UNCHANGED <<npk, base, scheme, kinds, deps, opened>>
+    /\ UNCHANGED <<npk, base, scheme, pal, kinds, deps, opened>>
 
 -----------------------------------------------------------------------------
 (* the editor opens the files                                              *)
@@ -210,29 +276,35 @@ Openable    == IF Sim THEN Unopened ELSE IF opened = <<>> THEN Firsts ELSE {Leas
 Open ==
     /\ phase = "open" /\ Unopened # {}
     /\ \E f \in Pick(Openable) : opened' = Append(opened, f)
-    /\ UNCHANGED <<phase, npk, base, scheme, kinds, deps, cur, mods>>
+    /\ UNCHANGED <<phase, npk, base, scheme, pal, kinds, deps, cur, mods>>
 
 -----------------------------------------------------------------------------
 (* the finished configuration with the specification's predictions        *)
 
-PkgRec(p) == [name     |-> PkgNames[p],
-              kind     |-> kinds[p],
+PkgRec(p) == [id       |-> PkgId(p),
+              name     |-> PkgName(p),
+              entry    |-> kinds[p].entry,
+              place    |-> kinds[p].place,
+              twin_of  |-> IF IsTwin(p) THEN PkgId(kinds[p].of) ELSE "",
               loc      |-> Loc(p),
               external |-> External(p),
-              deps     |-> {[name |-> PkgNames[q], kind |-> kinds[q]] : q \in {x \in Pkgs : <<p, x>> \in deps}}]
+              \* how this package's gleam.toml names its dependencies: by version, or by the relative path to q's directory
+              deps     |-> {[id |-> PkgId(q), name |-> PkgName(q), entry |-> kinds[q].entry, loc |-> Loc(q)] :
+                               q \in {x \in Pkgs : <<p, x>> \in deps}}]
 
 FileRec(f) == [path |-> Path(f),
                role |-> IF f.pkg = 0 THEN "free" ELSE "module",
-               pkg  |-> IF RootOf(Path(f)) = 0 THEN "" ELSE PkgNames[RootOf(Path(f))],
+               pkg  |-> IF RootOf(Path(f)) = 0 THEN "" ELSE PkgId(RootOf(Path(f))),
                modname |-> ModuleName(Path(f))]
 
 UseRec(u) == LET t == Resolve(u.from, u.name)
              IN [from    |-> Path(u.from),
                  name    |-> u.name,
                  target  |-> IF t = Unresolved THEN <<>> ELSE Path(t),
-                 targetpkg |-> IF t = Unresolved THEN "" ELSE PkgNames[t.pkg],
-                 \* same-named modules the import must NOT resolve to (not visible from the importer)
-                 decoys  |-> {Path(m) : m \in {x \in mods : NameOf(x) = u.name /\ x # t /\ x # u.from}}]
+                 targetpkg |-> IF t = Unresolved THEN "" ELSE PkgId(t.pkg),
+                 \* modules whose path ends in the imported name but which the import must NOT resolve to (not
+                 \* visible from the importer, or the name is only the tail of their module name)
+                 decoys  |-> {Path(m) : m \in Decoys(u.from, u.name, t)}]
 
 Config == [base  |-> base,
            pkgs  |-> [p \in Pkgs |-> PkgRec(p)],
@@ -244,62 +316,79 @@ Finish ==
     /\ phase = "open" /\ Unopened = {}
     /\ PrintT(<<"CASE", ToJson(Config)>>)
     /\ IF Sim
-       THEN /\ phase' = "start" /\ npk' = 0 /\ base' = <<>> /\ scheme' = 1 /\ kinds' = <<>> /\ deps' = {}
+       THEN /\ phase' = "start" /\ npk' = 0 /\ base' = <<>> /\ scheme' = 1 /\ pal' = {} /\ kinds' = <<>> /\ deps' = {}
             /\ mods' = {} /\ opened' = <<>> /\ cur' = 1
-       ELSE /\ phase' = "done" /\ UNCHANGED <<npk, base, scheme, kinds, deps, cur, mods, opened>>
+       ELSE /\ phase' = "done" /\ UNCHANGED <<npk, base, scheme, pal, kinds, deps, cur, mods, opened>>
 
 Next == Start \/ AddPackage \/ AddDep \/ AddModules \/ Open \/ Finish
 
 Spec == Init /\ [][Next]_vars
 
 -----------------------------------------------------------------------------
-(* invariants of the model.  TypeOK, RootsDistinct and DepsShape are       *)
-(* checked in every state; the ones about the reference operators in the   *)
-(* state in which the configuration is complete (Built: before the first   *)
-(* Open; the Open steps do not change the configuration).                  *)
+(* invariants of the model.  TypeOK, RootsDistinct, DepsShape and          *)
+(* ExternalIsPlace are checked in every state; the ones about the          *)
+(* reference operators in the state in which the configuration is complete *)
+(* (Built: before the first Open; the Open steps do not change the         *)
+(* configuration).                                                         *)
 
 Built == phase = "open" /\ opened = <<>>
 
 TypeOK ==
     /\ phase \in {"start", "pkgs", "deps", "mods", "open", "done"}
-    /\ npk \in 0..MaxPkgs /\ Len(kinds) <= MaxPkgs /\ scheme \in 1..NSchemes
-    /\ \A i \in Pkgs : kinds[i] \in (IF i = 1 THEN {"root"} ELSE DepKinds)
+    /\ npk \in 0..MaxPkgs /\ Len(kinds) <= MaxPkgs /\ scheme \in 1..NSchemes /\ pal \subseteq NameIdx
+    /\ \A i \in Pkgs : IF i = 1 THEN kinds[i] = RootKind
+                       ELSE /\ kinds[i].entry \in Entries /\ kinds[i].place \in Places
+                            /\ ValidShape(kinds[i].entry, kinds[i].place)
+                            /\ kinds[i].of \in 0..(i - 1)
     /\ deps \subseteq {<<i, j>> \in Pkgs \X Pkgs : i < j}
     /\ \A m \in mods : m.pkg \in Pkgs /\ m.c \in Choices
     /\ \A i \in 1..Len(opened) : opened[i] \in Files
 
-\* package roots are pairwise different directories
-RootsDistinct == \A p, q \in Pkgs : Loc(p) = Loc(q) => p = q
+\* package roots are pairwise different directories (also a twin and its original); package labels are unique,
+\* package NAMES are not: exactly a twin and its original share one
+RootsDistinct == \A p, q \in Pkgs : /\ Loc(p) = Loc(q) => p = q
+                                    /\ PkgId(p) = PkgId(q) => p = q
+                                    /\ (p # q /\ PkgName(p) = PkgName(q)) => (kinds[p].of = q \/ kinds[q].of = p)
+
+\* External is decided by the directory and by nothing else: it coincides with place = "packages" for every base
+\* (packages/..., build/libs/... look similar and are not build/packages), whatever the entry is; root, siblings,
+\* nested members and twins are local
+ExternalIsPlace == \A p \in Pkgs : /\ External(p) <=> (kinds[p].place = "packages")
+                                   /\ kinds[p].entry \in {"root", "none"} => ~External(p)
 
 \* RootOf is the longest-prefix root, it is unique, and it is the package the module was put into
-\* (non-trivial: the root package's directory is a prefix of every registry dependency's files)
+\* (non-trivial: the root package's directory is a prefix of every build/packages and nested package's files)
 RootOfIsInnermost == Built =>
     /\ \A m \in mods :
          LET path == Path(m) IN
          /\ m.pkg \in RootsOf(path)
          /\ RootOf(path) = m.pkg
          /\ \A q \in RootsOf(path) : q # m.pkg => Len(Loc(q)) < Len(Loc(m.pkg))
-         /\ External(m.pkg) => 1 \in RootsOf(path) /\ RootOf(path) # 1
+         /\ kinds[m.pkg].place \in {"packages", "nested"} => 1 \in RootsOf(path) /\ RootOf(path) # 1
     /\ RootOf(Path(FreeFile)) = 0
 
-\* ModuleName is what was put there, and it is injective per package
+\* ModuleName is what was put there: the path is <package root>/<src|test>/<module name>; it is injective per
+\* package; and no proper suffix of a module's name names that module
 ModuleNameInjective == Built =>
-    /\ \A m \in mods : ModuleName(Path(m)) = NameOf(m)
+    /\ \A m \in mods : /\ ModuleName(Path(m)) = NameOf(m)
+                       /\ \E d \in SourceDirs : Path(m) = Loc(m.pkg) \o <<d>> \o ModuleName(Path(m))
+                       /\ \A s \in Suffixes(NameOf(m)) : s # NameOf(m) => ModuleName(Path(m)) # s
     /\ \A m1, m2 \in mods : m1.pkg = m2.pkg /\ ModuleName(Path(m1)) = ModuleName(Path(m2)) => m1 = m2
 
 \* Resolve is a function: at most one preferred target for every (file, name)
 ResolveIsFunction == Built =>
-    \A f \in Files : \A n \in NamesInUse : Cardinality(Preferred(f, n)) <= 1
+    \A f \in Files : \A n \in ImportNames : Cardinality(Preferred(f, n)) <= 1
 
-\* ... whose value is a module of that name in a visible package, the importer's own if there is one,
-\* and unresolved exactly if no visible package has such a module
+\* ... whose value is a module of exactly that name in a visible package, the importer's own if there is one,
+\* and unresolved exactly if no visible package has such a module; nothing ever resolves into a twin from outside
 ResolveIsVisible == Built =>
-    \A f \in Files : \A n \in NamesInUse :
+    \A f \in Files : \A n \in ImportNames :
         LET t == Resolve(f, n)
             r == RootOf(Path(f))
         IN /\ t # Unresolved => /\ t \in mods /\ NameOf(t) = n
                                 /\ t.pkg = r \/ <<r, t.pkg>> \in deps
                                 /\ (\E m \in mods : m.pkg = r /\ NameOf(m) = n) => t.pkg = r
+                                /\ IsTwin(t.pkg) => t.pkg = r
            /\ t = Unresolved => \A m \in mods : NameOf(m) = n => m.pkg # r /\ <<r, m.pkg>> \notin deps
 
 \* derived imports never form a cycle: every resolved use site points to a later file
@@ -307,9 +396,12 @@ ImportsAcyclic == Built =>
     \A u \in UseSites : LET t == Resolve(u.from, u.name)
                        IN u.from # FreeFile /\ t # Unresolved => Later(u.from, t)
 
-\* dependencies: registry packages list registry packages only; everybody but the root is listed
+\* dependencies: packages in build/packages list packages in build/packages only; everybody but the root and the
+\* twins is listed; a twin lists nobody and is listed by nobody, and its original lives in build/packages
 DepsShape ==
-    /\ \A e \in deps : kinds[e[1]] = "registry" => kinds[e[2]] = "registry"
-    /\ phase \in {"mods", "open", "done"} => \A j \in Pkgs : j > 1 => \E i \in Pkgs : <<i, j>> \in deps
+    /\ \A e \in deps : /\ kinds[e[1]].place = "packages" => kinds[e[2]].place = "packages"
+                       /\ ~IsTwin(e[1]) /\ ~IsTwin(e[2])
+    /\ \A p \in Pkgs : IsTwin(p) => kinds[kinds[p].of].place = "packages" /\ ~IsTwin(kinds[p].of)
+    /\ phase \in {"mods", "open", "done"} => \A j \in Pkgs : j > 1 /\ ~IsTwin(j) => \E i \in Pkgs : <<i, j>> \in deps
 
 =============================================================================
